@@ -16,7 +16,7 @@ NOTE_COMMON = ("Trusted base: Kani's MIR->GOTO translation and CBMC; the environ
 TEXT = {
     "C01": ("The progress sentence of the property is decided as a step: for every sender copy and every receiver copy in scope, the delta an honest sender emits from the receiver's own digest "
             "strictly raises the receiver's (watermark, max version) whenever the sender is ahead and one op beyond the header fits (real NodeState::apply_delta; real per-member sender decision, "
-            "offer filter and empty-tail SetMaxVersion checked against the same reference model). The bounded-number-of-handshakes ranking argument, fairness of the shuffle and 3..5-node "
+            "offer filter checked against the same reference model; the whole real delta computation incl. the empty-tail SetMaxVersion with nothing refused, quick; every truncation point, thorough). The bounded-number-of-handshakes ranking argument, fairness of the shuffle and 3..5-node "
             "composition are argued in DESIGN.md, not mechanised.", "3"),
     "C02": ("Inductive invariant (I1-I4 over a symbolic owner ledger) + one step of the real code from an arbitrary pre-state: receiver step (real apply_delta on the honest delta computed from any "
             "earlier digest, truncated anywhere) and tombstone-GC step (real gc_keys_marked_for_deletion at any instant). The sender's content/decision are checked against the reference model on the "
@@ -36,10 +36,11 @@ TEXT = {
     "C05": ("Three pieces of the mechanism, each on the real code: (i) a delta section whose max version and watermark are not above the copy it is applied to (the owner is the most advanced "
             "copy, C03's invariant for every honest source) is rejected by the real apply_delta and changes nothing; (ii) the real per-member sender decision offers nothing when its copy is not "
             "ahead of the digest; (iii) the real Chitchat::report_heartbeat ignores the node's own id in a digest. The message-level glue (process_message) does not fit the solver and is not executed.", "4"),
-    "C07": ("Size part: the real CompressedStreamWriter under the any-length codec model never produces more bytes than the upper bound it announced before the last append (items up to one block, "
-            "thresholds 8/16; the bound is checked to be attained exactly). Content part: the real StaleNode::stale_key_values yields exactly the entries above the start version in ascending order; "
-            "scheduled-for-deletion members are skipped by the real delta computation; thorough tier: the whole real compute_partial_delta_respecting_mtu against the reference model at every "
-            "truncation point. NOT covered: the message-level budget arithmetic (observations O-1/O-2 in DESIGN.md), items longer than one block, real payload sizes.", "4"),
+    "C07": ("Size part: (i) the real process_message(Syn) with the delta computation replaced by its contract ('any announced length within the budget it is handed') never yields a SYN-ACK above 65,507 "
+            "bytes and can fill the datagram exactly (finding O-1, fixed); (ii) the real CompressedStreamWriter under the any-length codec model never produces more bytes than the upper bound it "
+            "announced before the last append (items up to one block, thresholds 8/16). Content part: real StaleNode::stale_key_values = exactly the entries above the start version, ascending; "
+            "scheduled-for-deletion members skipped; the whole real compute_partial_delta_respecting_mtu against the reference model for concrete acceptance patterns of the serializer calls "
+            "(quick) and for every truncation point (thorough). NOT covered: the ACK budget line (SynAck arm does not fit), items longer than one block (observation O-2), real payload sizes.", "4"),
     "C09": ("Structure-aware part only: the real DeltaBuilder on op sequences of every kind pattern up to 3 ops (grouping, duplicate members, ops without header, non-increasing versions, "
             "SetMaxVersion below received key-values - finding F-3, fixed) and the real apply_delta on every delta the decoder can admit (no panic, frontier monotone, hence the monotonicity assert "
             "of ClusterState::apply_delta is unreachable). Byte-level decoding of arbitrary buffers does not fit (deserialize_stream allocates and scans a 64 KiB block buffer) and is NOT claimed.", "4"),
